@@ -77,6 +77,7 @@ struct Inner {
     released: usize, // bytes the library may read (absolute offset into inbuf)
     chunks: std::collections::VecDeque<usize>, // explicit sizes of the next reads
     max_read: usize,
+    yield_reads: u32, // the next reads return Pending after waking their own waker
     in_end: Option<EndKind>,
     read_waker: Option<Waker>,
     // outbound (library -> peer)
@@ -109,6 +110,7 @@ impl Conn {
             released: 0,
             chunks: Default::default(),
             max_read: usize::MAX,
+            yield_reads: 0,
             in_end: None,
             read_waker: None,
             tap: Vec::new(),
@@ -204,6 +206,12 @@ impl Conn {
     pub fn set_read_chunks(&self, chunks: &[usize]) {
         let mut g = self.0.lock().unwrap();
         g.chunks = chunks.iter().copied().filter(|c| *c > 0).collect();
+    }
+
+    /// The next `n` reads behave like a tokio resource whose task budget is exhausted: they
+    /// wake their own waker and return `Pending` although data may be there.
+    pub fn yield_next_reads(&self, n: u32) {
+        self.0.lock().unwrap().yield_reads = n;
     }
 
     pub fn set_max_read(&self, n: usize) {
@@ -356,6 +364,13 @@ impl AsyncRead for PipeReader {
         bump_activity();
         let mut g = self.0.lock().unwrap();
         g.stats.reads += 1;
+        if g.yield_reads > 0 {
+            g.yield_reads -= 1;
+            g.stats.read_pending += 1;
+            drop(g);
+            cx.waker().wake_by_ref();
+            return Poll::Pending;
+        }
         let avail = g.released - g.in_pos;
         if avail == 0 {
             return match g.in_end {
